@@ -25,25 +25,17 @@ def build(ctx):
     site = NSP + ".build"
     tr = ctx.trace(NSP, "build")
     s1, s2 = P("sample1"), P("sample2")
-    loc = {}
-    for e in tr.of("local"):
-        loc.setdefault(e.name, []).append(e)
-    data = loc.get("data", [None])[0]
-    ok = data is not None and data.value == atom(("call", "numpy.vstack", (atom(("tuple", (s1, s2))),), ()))
-    ctx.ob("FRM", site, "pooled data = sample1 stacked on sample2", ok, q.short(data.value, 80) if data is not None else "")
     un = [e for e in tr.calls() if e.callee == ("lib", "numpy.unique")]
-    ok = len(un) == 1 and data is not None and un[0].args[0] == data.value and dict(un[0].kwargs).get("axis") == const(0) and dict(un[0].kwargs).get("return_inverse") == T.TRUE
-    ctx.ob("FRM", site, "de-duplicated union with the inverse index (row-wise unique)", ok, "", un[0] if un else None)
-    if not un:
+    if not ctx.anchor(site, "pooling through np.unique", len(un) == 1 and un[0].args):
         return
+    pooled = un[0].args[0]
+    ok = pooled == atom(("call", "numpy.vstack", (atom(("tuple", (s1, s2))),), ()))
+    ctx.ob("FRM", site, "pooled data = sample1 stacked on sample2", ok, q.short(pooled, 80), un[0])
+    ok = dict(un[0].kwargs).get("axis") == const(0) and dict(un[0].kwargs).get("return_inverse") == T.TRUE
+    ctx.ob("FRM", site, "de-duplicated union with the inverse index (row-wise unique)", ok, "", un[0])
     inv = q.sub(un[0].result, 1)
     D = q.sub(un[0].result, 0)
     n1 = atom(("call", "len", (s1,), ()))
-    v1 = loc.get("v1", [None])[0]
-    v2 = loc.get("v2", [None])[0]
-    ok = (v1 is not None and v2 is not None and v1.value == q.sub(inv, atom(("slice", T.NONE, n1, T.NONE))) and v2.value == q.sub(inv, atom(("slice", n1, T.NONE, T.NONE))))
-    ctx.ob("PARTITION", site, "the pooled index is split at len(sample1): first part marks sample1, the rest sample2", ok,
-           "a positional split of pooled rows must be taken at the size of the first operand (v1=%s, v2=%s)" % (q.short(v1.value, 60) if v1 else None, q.short(v2.value, 60) if v2 else None), v1)
     fin = tr.final.attrs
     zeros = atom(("call", "numpy.zeros", (q.sub(atom(("getattr", D, "shape")), 0),), ()))
     for attr, idx in (("v1", q.sub(inv, atom(("slice", T.NONE, n1, T.NONE)))), ("v2", q.sub(inv, atom(("slice", n1, T.NONE, T.NONE))))):
@@ -52,6 +44,9 @@ def build(ctx):
         ok = a is not None and a[0] == "setitem" and a[1] == zeros and a[2] == idx and a[3] == const(1.0)
         ctx.ob("FRM", site, "%s is the 0/1 membership vector of its sample over the union (zeros, then 1 at the sample's unique points)" % attr, ok,
                "found %s" % (q.short(v, 160) if v is not None else None))
+        got_idx = a[2] if a is not None and a[0] == "setitem" else None
+        ctx.ob("PARTITION", site, "%s marks the part of the pooled index that belongs to its sample (split at len(sample1))" % attr, got_idx == idx,
+               "a positional split of pooled rows must be taken at the size of the first operand: %s" % (q.short(got_idx, 80) if got_idx is not None else None))
     ctx.ob("FRM", site, "D is the de-duplicated union", fin.get("D") == D, "")
     # adjacency
     nn = [e for e in tr.calls() if e.callee == ("lib", "sklearn.neighbors.NearestNeighbors")]
@@ -116,7 +111,12 @@ def threshold(ctx):
     ok = len(ft) == 1 and ra is not None and ra[0] == "call" and ra[1] == "scipy.stats.norm.ppf" and T.same(ra[2][0], const(1) - P("alpha")) and \
         tuple(ra[2][1:]) == (q.sub(ft[0].result, 0), q.sub(ft[0].result, 1))
     ctx.ob("POL", site, "threshold = (1 - alpha) quantile of the normal fitted to the permutation distances", ok, q.short(tr.retval, 160))
-    ap = [e for e in tr.of("localmut") if e.name == "d_shuffle" and e.how == "method:append"]
+    lname = None
+    if ft and ft[0].args:
+        fa = ft[0].args[0].single_atom()
+        if fa is not None and fa[0] == "loopvar" and fa[2].startswith("$"):
+            lname = fa[2][1:]
+    ap = [e for e in tr.of("localmut") if e.name == lname and e.name is not None and e.how == "method:append"]
     ok = len(ap) == 1 and dc and _is_ret_of(tr, dc[0], ap[0].value.single_atom()[1][0])
     ctx.ob("FRM", site, "every permutation distance enters the fit", bool(ok), "")
 
